@@ -122,3 +122,23 @@ func verifPartRemoving(pw *partWrapper) {
 	defer t.mu.Unlock()
 	t.emit(map[string]any{"event": "PartRemove", "part": t.id(unsafe.Pointer(pw))})
 }
+
+func verifFileSnap(event string, tst *tsTable, id int, wrote bool, copied, listed, opened []uint64) {
+	t := verifTrace.Load()
+	if t == nil {
+		return
+	}
+	t.mu.Lock()
+	defer t.mu.Unlock()
+	ev := map[string]any{"event": event, "tbl": t.id(unsafe.Pointer(tst)), "id": id}
+	if event == "FileSnapEnd" {
+		nz := func(l []uint64) []uint64 {
+			if l == nil {
+				return []uint64{}
+			}
+			return l
+		}
+		ev["wrote"], ev["copied"], ev["listed"], ev["opened"] = wrote, nz(copied), nz(listed), nz(opened)
+	}
+	t.emit(ev)
+}
